@@ -273,13 +273,14 @@ func mkCaller(c DBCaller) db.Caller {
 
 // dbEnv is one live database under observation.
 type dbEnv struct {
-	dir   string // parent of the state directory
-	state string // directory holding the database file
-	path  string
-	kek   *countingAEAD
-	sink  *auditSink
-	d     *db.DB
-	super db.Caller
+	dir           string // parent of the state directory
+	state         string // directory holding the database file
+	path          string
+	kek           *countingAEAD
+	probeCounters bool // C03: probe the next-version counters through a restarted handle after every step
+	sink          *auditSink
+	d             *db.DB
+	super         db.Caller
 }
 
 func newDBEnv(dir string) (*dbEnv, error) {
@@ -486,6 +487,27 @@ func (e *dbEnv) observeState(o *stepObs) {
 		o.Disk = viaOpen
 		if o.SchemaOK {
 			o.Disk = dec
+		}
+	}
+	// 4. counters as a restarted server USES them: on a scratch copy of the file, opened with the same
+	// key, a put of a never-seen value must get LatestVersion+1 for every name (a counter lost or
+	// "repaired" while loading shows only here)
+	if derr == nil && o.SchemaOK && e.probeCounters {
+		cp := e.path + ".probe"
+		if bs, rerr := os.ReadFile(e.path); rerr == nil && os.WriteFile(cp, bs, 0600) == nil {
+			if d3, oerr := db.Open(cp, e.kek.inner, audit.New(io.Discard)); oerr == nil {
+				for i := range o.Disk {
+					if len(o.Disk[i].Name) == 0 {
+						continue
+					}
+					v, perr := d3.Put(e.super, string(o.Disk[i].Name), []byte("verif-counter-probe-value"))
+					if perr == nil && uint64(v) != o.Disk[i].Latest+1 {
+						o.Note += sprintf("restarted put on %q got version %d, file says LatestVersion %d; ", o.Disk[i].Name, v, o.Disk[i].Latest)
+						o.Disk[i].Latest = uint64(v) - 1
+					}
+				}
+			}
+			os.Remove(cp)
 		}
 	}
 	if o.LiveKind == "dump" && sameDump(o.Live, o.Disk, false) {
